@@ -39,6 +39,7 @@ type recTrig struct {
 	inner   quartz.Trigger
 	answers []*int64
 	fixed   *int64
+	endErr  error // what a scripted "no fire time" answer returns (nil: errScript); the Trigger interface only says "error"
 	log     *[]trigCall
 	mu      *sync.Mutex
 }
@@ -53,6 +54,9 @@ func (t *recTrig) NextFireTime(prev int64) (int64, error) {
 		res = *t.fixed
 	case len(t.answers) == 0 || t.answers[0] == nil:
 		err = errScript
+		if t.endErr != nil {
+			err = t.endErr
+		}
 		if len(t.answers) > 0 {
 			t.answers = t.answers[1:]
 		}
@@ -263,6 +267,55 @@ func callsString(cs []trigCall) string {
 	return strings.Join(p, ",")
 }
 
+// ownFire relates every execution to the fire time that caused it (C03: "a job is executed only in response to a fire time
+// produced by its own trigger, never before that fire time, and at most once per fire time"). Jobs and the triggers they are
+// scheduled with carry the same tag; produced[tag][t] counts how often the trigger with that tag has answered t so far.
+type ownFire struct {
+	produced, dispatched map[int]map[int64]int
+}
+
+func newOwnFire() *ownFire {
+	return &ownFire{produced: map[int]map[int64]int{}, dispatched: map[int]map[int64]int{}}
+}
+
+// note records the answers of trigger calls (after the operation that made them has been judged).
+func (o *ownFire) note(calls []trigCall) {
+	for _, c := range calls {
+		if c.result == nil {
+			continue
+		}
+		if o.produced[c.tag] == nil {
+			o.produced[c.tag] = map[int64]int{}
+		}
+		o.produced[c.tag][*c.result]++
+	}
+}
+
+// dispatch judges one execution of the job with the given tag, dequeued with fire time f; "" = fine.
+func (o *ownFire) dispatch(tag int, f int64) string {
+	if o.dispatched[tag] == nil {
+		o.dispatched[tag] = map[int64]int{}
+	}
+	o.dispatched[tag][f]++
+	n := o.produced[tag][f]
+	switch {
+	case n == 0:
+		var have []string
+		for t := range o.produced[tag] {
+			have = append(have, fmt.Sprint(t))
+		}
+		sort.Strings(have)
+		if len(have) > 6 {
+			have = append(have[:6], "…")
+		}
+		return fmt.Sprintf("C03 job %d was executed in response to the fire time %d, which its own trigger never produced (all answers of its trigger so far: [%s]): "+
+			"the fire time was invented by the scheduler or taken over from another trigger", tag, f, strings.Join(have, " "))
+	case o.dispatched[tag][f] > n:
+		return fmt.Sprintf("C03 job %d was executed %d times in response to the fire time %d, which its trigger produced %d time(s)", tag, o.dispatched[tag][f], f, n)
+	}
+	return ""
+}
+
 type absJob struct {
 	susp bool
 	tag  int
@@ -313,6 +366,11 @@ func schedRun(args []string) int {
 	if k := schedKnownPausedRunOnce(); k != "" {
 		viol = append(viol, k)
 	}
+	// directed sequences on the exact step harness: every execution answers a fire time of the job's own trigger
+	for _, v := range schedDirectedOwnFire() {
+		viol = append(viol, v)
+	}
+	dist["class"]["directed-own-fire-time"] = 4
 	for s := 0; s < *nseq; s++ {
 		thr := thr
 		if r.Intn(6) == 0 { // "never treat a fire time as outdated"
@@ -336,7 +394,9 @@ func schedRun(args []string) int {
 		// here against the property (no fire time is invented: the next one is prev + interval, and if that is beyond
 		// the largest representable time, that largest time — never a time before prev for a positive interval)
 		ivl := map[int]int64{}
+		own := newOwnFire()
 		checkCalls := func(calls []trigCall) {
+			defer own.note(calls)
 			for _, c := range calls {
 				d, ok := ivl[c.tag]
 				if !ok || c.result == nil {
@@ -425,6 +485,10 @@ func schedRun(args []string) int {
 						}
 					}
 					firstErr = rt.answers[0] == nil
+					// the error a custom trigger ends / fails with is its own business: a sentinel of its own, quartz.ErrTriggerExpired, either of them wrapped
+					ek := r.Intn(5)
+					rt.endErr = []error{nil, nil, fmt.Errorf("schedule complete: %w", errScript), quartz.ErrTriggerExpired, fmt.Errorf("schedule complete: %w", quartz.ErrTriggerExpired)}[ek]
+					dist["trigger"]["script-error:"+[]string{"own", "own", "own-wrapped", "expired", "expired-wrapped"}[ek]]++
 					spec = "X" + strings.Join(parts, ";")
 					tr = rt
 					dist["trigger"]["script"]++
@@ -681,6 +745,14 @@ func schedRun(args []string) int {
 				ans = "ok " + strings.Join(parts, ",")
 			case "step":
 				sr := h.step()
+				if sr.popErr == nil && len(sr.execs) > 0 { // judged before this step's own trigger answers are recorded
+					if tj, ok := sr.popped.JobDetail().Job().(*tagJob); ok {
+						if v := own.dispatch(tj.tag, sr.popped.NextRunTime()); v != "" {
+							flagV(v)
+						}
+						dist["class"]["dispatch-related-to-own-fire-time"]++
+					}
+				}
 				checkCalls(sr.calls)
 				now := sr.lo
 				cls := ""
@@ -860,4 +932,81 @@ func schedKnownPausedRunOnce() string {
 		return "C08 KNOWN[paused-run-once] ScheduleJob(RunOnceTrigger 1h); PauseJob; ResumeJob -> " + err.Error() + ": the job stays listed as paused and can never be re-activated, although it has not run"
 	}
 	return fmt.Sprintf("C08 ScheduleJob(RunOnceTrigger 1h); PauseJob; ResumeJob returned %v and left the registry in an inconsistent state (get: %v)", err, gerr)
+}
+
+// schedDirectedOwnFire: four short sequences on the exact step harness (OutdatedThreshold 1 h) in which a scheduler that makes up a
+// fire time, or lets an entry keep the fire time of another trigger, executes a job; judged by ownFire only (property text).
+//
+//	A  ScheduleJob(run-once: real RunOnceTrigger(1 h)); PauseJob; ResumeJob (the trigger reports expiry); step
+//	A' the same with a scripted one-shot trigger [T0-10min] that ends with ErrTriggerExpired
+//	B  ScheduleJob(script [T0-3h, T0-2h, T0+1h]); step; step; step   (a misfire that spans more than one occurrence)
+//	C  ScheduleJob(K, script [T0-10min, T0+1h]); ScheduleJob(K, Replace, script [T0+2h], same Description()); step
+func schedDirectedOwnFire() (viol []string) {
+	minute, hour := int64(time.Minute), int64(time.Hour)
+	for _, sc := range []string{"A", "A'", "B", "C"} {
+		func() {
+			defer func() {
+				if r := recover(); r != nil {
+					viol = append(viol, fmt.Sprintf("C03 directed sequence %s: the step harness lost track of the execution loop: %v", sc, r))
+				}
+			}()
+			h := newSchedHarness(time.Hour)
+			defer h.close()
+			own := newOwnFire()
+			T0 := quartz.NowNano()
+			key := quartz.NewJobKey("directed")
+			var trace []string
+			script := func(tag int, endErr error, at ...int64) *recTrig {
+				rt := &recTrig{tag: tag, log: &h.tlog, mu: &h.tmu, endErr: endErr}
+				for _, a := range at {
+					v := a
+					rt.answers = append(rt.answers, &v)
+				}
+				return rt
+			}
+			api := func(what string, f func() error) {
+				err, calls, _, _ := h.api(f)
+				own.note(calls)
+				trace = append(trace, fmt.Sprintf("%s -> %s calls=%s", what, serr(err), callsString(calls)))
+			}
+			step := func() {
+				sr := h.step()
+				if sr.popErr == nil && len(sr.execs) > 0 {
+					if tj, ok := sr.popped.JobDetail().Job().(*tagJob); ok {
+						if v := own.dispatch(tj.tag, sr.popped.NextRunTime()); v != "" {
+							viol = append(viol, fmt.Sprintf("%s | directed sequence %s (T0=%d): %s; step popped %s and executed job(s) %v", v, sc, T0, strings.Join(trace, "; "), entryString(sr.popped), sr.execs))
+						}
+					}
+				}
+				own.note(sr.calls)
+				trace = append(trace, fmt.Sprintf("step -> execs=%v calls=%s", sr.execs, callsString(sr.calls)))
+			}
+			jd := func(tag int, replace bool) *quartz.JobDetail {
+				o := quartz.NewDefaultJobDetailOptions()
+				o.Replace = replace
+				return quartz.NewJobDetailWithOptions(&tagJob{tag: tag, run: h.recordExec}, key, o)
+			}
+			switch sc {
+			case "A", "A'":
+				var tr quartz.Trigger = &recTrig{tag: 1, log: &h.tlog, mu: &h.tmu, inner: quartz.NewRunOnceTrigger(time.Hour)}
+				if sc == "A'" {
+					tr = script(1, quartz.ErrTriggerExpired, T0-10*minute)
+				}
+				api("ScheduleJob(one-shot trigger)", func() error { return h.s.ScheduleJob(jd(1, false), tr) })
+				api("PauseJob", func() error { return h.s.PauseJob(key) })
+				api("ResumeJob", func() error { return h.s.ResumeJob(key) })
+				step()
+			case "B":
+				api("ScheduleJob(script T0-3h, T0-2h, T0+1h)", func() error { return h.s.ScheduleJob(jd(1, false), script(1, nil, T0-3*hour, T0-2*hour, T0+hour)) })
+				step()
+				step()
+				step()
+			case "C":
+				api("ScheduleJob(K, script T0-10min, T0+1h)", func() error { return h.s.ScheduleJob(jd(1, false), script(1, nil, T0-10*minute, T0+hour)) })
+				api("ScheduleJob(K, Replace, script T0+2h)", func() error { return h.s.ScheduleJob(jd(2, true), script(2, nil, T0+2*hour)) })
+				step()
+			}
+		}()
+	}
+	return viol
 }
